@@ -209,6 +209,8 @@ func (e *Engine) pos(p token.Pos) string {
 	f := ps.Filename
 	if i := strings.Index(f, "/repo/"); i >= 0 {
 		f = f[i+6:]
+	} else if d := os.Getenv("VF_REPO"); d != "" && strings.HasPrefix(f, d+"/") {
+		f = f[len(d)+1:]
 	} else if i := strings.LastIndex(f, "/src/"); i >= 0 {
 		f = f[i+5:]
 	}
@@ -282,12 +284,11 @@ func (e *Engine) check(st *State, extra *smt.Term, wantModel bool) (smt.Result, 
 	if extra.IsFalse() {
 		return smt.Unsat, nil
 	}
-	as := dedupe(append(append([]*smt.Term(nil), st.PC...), extra))
 	var vars []*smt.Term
 	if wantModel && len(st.Vars) <= 6000 {
 		vars = e.allVars(st)
 	}
-	r, m := e.S.Check(as, vars)
+	r, m := e.S.CheckPC(st.PC, extra, vars)
 	if r == smt.Sat && vars == nil {
 		m = nil
 	}
@@ -305,7 +306,7 @@ func (e *Engine) addPC(st *State, t *smt.Term) {
 	if t.IsTrue() {
 		return
 	}
-	st.PC = append(st.PC, t)
+	e.assertPC(st, t)
 	if st.Model != nil {
 		if v, _ := e.evalModel(st, t); v != 1 {
 			st.Model = nil
@@ -321,7 +322,16 @@ func (e *Engine) choose(st *State, guards []*smt.Term, what string) int {
 	return d
 }
 
-func (e *Engine) chooseP(st *State, guards []*smt.Term, payload []uint64, what string) (int, uint64) {
+func (e *Engine) chooseP(st *State, guardsIn []*smt.Term, payload []uint64, what string) (int, uint64) {
+	var guards []*smt.Term
+	if len(st.replay) == 0 {
+		guards = make([]*smt.Term, len(guardsIn))
+		for i, g := range guardsIn {
+			guards[i] = e.simp(st, g)
+		}
+	} else {
+		guards = guardsIn
+	}
 	pl := func(i int) uint64 {
 		if payload != nil {
 			return payload[i]
@@ -395,12 +405,12 @@ func (e *Engine) chooseP(st *State, guards []*smt.Term, payload []uint64, what s
 		child := st.fork()
 		child.replay = append(append([]dec(nil), st.decided...), dec{feas[k], pl(feas[k])})
 		child.decided = nil
-		child.PC = append(child.PC, guards[feas[k]])
+		e.assertPC(child, guards[feas[k]])
 		child.Model = models[k]
 		e.work = append(e.work, child)
 	}
 	d := feas[0]
-	st.PC = append(st.PC, guards[d])
+	e.assertPC(st, guards[d])
 	st.Model = models[0]
 	st.decided = append(st.decided, dec{d, pl(d)})
 	return d, pl(d)
@@ -420,6 +430,9 @@ func (e *Engine) branch(st *State, c *smt.Term, what string) bool {
 // oblige records a proof obligation `cond` at the current point. On sat of PC ∧ ¬cond it records a
 // finding; the path continues under cond.
 func (e *Engine) oblige(st *State, cond *smt.Term, kind, label, msg string) {
+	if len(st.replay) == 0 {
+		cond = e.simp(st, cond)
+	}
 	pos := e.instrPos(st)
 	if kind == "panic" && st.PanicLbl != "" {
 		label = st.PanicLbl + "/" + label
@@ -440,7 +453,7 @@ func (e *Engine) oblige(st *State, cond *smt.Term, kind, label, msg string) {
 	if len(st.replay) > 0 {
 		// this obligation was already decided before the fork that is being replayed
 		if !cond.IsTrue() {
-			st.PC = append(st.PC, cond)
+			e.assertPC(st, cond)
 		}
 		return
 	}
@@ -502,7 +515,7 @@ func (e *Engine) oblige(st *State, cond *smt.Term, kind, label, msg string) {
 	if rr == smt.Unsat {
 		panic(abort{"done", "obligation failed on every input of this path: " + label})
 	}
-	st.PC = append(st.PC, cond)
+	e.assertPC(st, cond)
 	st.Model = mm
 }
 
@@ -584,6 +597,11 @@ func (e *Engine) concretize(st *State, t *smt.Term, what string) uint64 {
 		_, v := e.chooseP(st, nil, nil, what)
 		return v
 	}
+	t = e.simp(st, t)
+	if t.IsConst() {
+		st.decided = append(st.decided, dec{0, t.Val})
+		return t.Val
+	}
 	c := e.C
 	var vals []uint64
 	excl := c.True
@@ -663,4 +681,148 @@ func dedupe(ts []*smt.Term) []*smt.Term {
 		out = append(out, t)
 	}
 	return out
+}
+
+// assertPC appends conjuncts to the path condition and records their truth as syntactic facts.
+func (e *Engine) assertPC(st *State, ts ...*smt.Term) {
+	for _, t := range ts {
+		if t.IsTrue() {
+			continue
+		}
+		st.PC = append(st.PC, t)
+		e.addFact(st, t, true)
+	}
+}
+
+func (e *Engine) addFact(st *State, t *smt.Term, val bool) {
+	if t.IsConst() {
+		return
+	}
+	if st.facts == nil {
+		st.facts = map[int]bool{}
+	}
+	st.facts[t.ID] = val
+	st.factsVer++
+	switch t.Op {
+	case smt.OpNot:
+		e.addFact(st, t.Args[0], !val)
+	case smt.OpAnd:
+		if val {
+			e.addFact(st, t.Args[0], true)
+			e.addFact(st, t.Args[1], true)
+		}
+	case smt.OpOr:
+		if !val {
+			e.addFact(st, t.Args[0], false)
+			e.addFact(st, t.Args[1], false)
+		}
+	}
+}
+
+// simp rewrites t using the syntactic facts of the path condition (sub-terms known true/false).
+func (e *Engine) simp(st *State, t *smt.Term) *smt.Term {
+	if len(st.facts) == 0 || t.IsConst() {
+		return t
+	}
+	if st.simpVer != st.factsVer || st.simpMemo == nil {
+		st.simpMemo = map[int]*smt.Term{}
+		st.simpVer = st.factsVer
+	}
+	return e.simpRec(st, t, 0)
+}
+
+func (e *Engine) simpRec(st *State, t *smt.Term, depth int) *smt.Term {
+	if t.Op == smt.OpConst || t.Op == smt.OpVar && t.W != 0 {
+		return t
+	}
+	if r, ok := st.simpMemo[t.ID]; ok {
+		return r
+	}
+	if t.W == 0 {
+		if v, ok := st.facts[t.ID]; ok {
+			r := e.C.Bool(v)
+			st.simpMemo[t.ID] = r
+			return r
+		}
+	}
+	if depth > 400 {
+		return t
+	}
+	c := e.C
+	var a [3]*smt.Term
+	changed := false
+	for i := 0; i < t.N; i++ {
+		a[i] = e.simpRec(st, t.Args[i], depth+1)
+		if a[i] != t.Args[i] {
+			changed = true
+		}
+	}
+	r := t
+	if changed {
+		switch t.Op {
+		case smt.OpNot:
+			r = c.Not(a[0])
+		case smt.OpAnd:
+			r = c.And(a[0], a[1])
+		case smt.OpOr:
+			r = c.Or(a[0], a[1])
+		case smt.OpEq:
+			r = c.Eq(a[0], a[1])
+		case smt.OpIte:
+			r = c.Ite(a[0], a[1], a[2])
+		case smt.OpAdd:
+			r = c.Add(a[0], a[1])
+		case smt.OpSub:
+			r = c.Sub(a[0], a[1])
+		case smt.OpMul:
+			r = c.Mul(a[0], a[1])
+		case smt.OpUDiv:
+			r = c.UDiv(a[0], a[1])
+		case smt.OpSDiv:
+			r = c.SDiv(a[0], a[1])
+		case smt.OpURem:
+			r = c.URem(a[0], a[1])
+		case smt.OpSRem:
+			r = c.SRem(a[0], a[1])
+		case smt.OpBAnd:
+			r = c.BAnd(a[0], a[1])
+		case smt.OpBOr:
+			r = c.BOr(a[0], a[1])
+		case smt.OpBXor:
+			r = c.BXor(a[0], a[1])
+		case smt.OpBNot:
+			r = c.BNot(a[0])
+		case smt.OpNeg:
+			r = c.Neg(a[0])
+		case smt.OpShl:
+			r = c.Shl(a[0], a[1])
+		case smt.OpLshr:
+			r = c.Lshr(a[0], a[1])
+		case smt.OpAshr:
+			r = c.Ashr(a[0], a[1])
+		case smt.OpUlt:
+			r = c.Ult(a[0], a[1])
+		case smt.OpUle:
+			r = c.Ule(a[0], a[1])
+		case smt.OpSlt:
+			r = c.Slt(a[0], a[1])
+		case smt.OpSle:
+			r = c.Sle(a[0], a[1])
+		case smt.OpExtract:
+			r = c.Extract(t.A, t.B, a[0])
+		case smt.OpZext:
+			r = c.Zext(a[0], t.W)
+		case smt.OpSext:
+			r = c.Sext(a[0], t.W)
+		case smt.OpConcat:
+			r = c.Concat(a[0], a[1])
+		}
+		if r.W == 0 && !r.IsConst() {
+			if v, ok := st.facts[r.ID]; ok {
+				r = c.Bool(v)
+			}
+		}
+	}
+	st.simpMemo[t.ID] = r
+	return r
 }
